@@ -47,7 +47,7 @@ func (p *verifC09Promise) report() {
 func (p *verifC09Promise) Pass() { p.s.pass++; p.report() }
 func (p *verifC09Promise) Fail() { p.s.fail++; p.report() }
 
-// calls: [drop, shape, status]; shape 0 WriteHeader(status) | 1 Write without WriteHeader | 2 nothing written |
+// calls: [drop, shape, status, request header variant (optional)]; shape 0 WriteHeader(status) | 1 Write without WriteHeader | 2 nothing written |
 // 3 WriteHeader(status), Write, Flush, Write | 4 panic(string) | 5 panic(error) | 6 Write then panic.
 // guard: RecoverHandler between the shedding handler and the handler (api/engine.go order); without it the
 // panic unwinds through the shedding handler to the driver (as to net/http's per-connection recover).
@@ -102,6 +102,20 @@ func TestVerifDriverC09(t *testing.T) {
 			before := sh.letIn
 			rec := httptest.NewRecorder()
 			req := httptest.NewRequest(http.MethodGet, "http://localhost/verif", nil)
+			if len(call) > 3 { // request header variant: 1 a websocket upgrade, 2 another Upgrade value, 3 Connection: close
+				switch call[3] {
+				case 1:
+					req.Header.Set("Connection", "Upgrade")
+					req.Header.Set("Upgrade", "websocket")
+					req.Header.Set("Sec-WebSocket-Version", "13")
+					req.Header.Set("Sec-WebSocket-Key", "dmVyaWYtdmVyaWYtdmVyaQ==")
+				case 2:
+					req.Header.Set("Connection", "Upgrade")
+					req.Header.Set("Upgrade", "h2c")
+				case 3:
+					req.Header.Set("Connection", "close")
+				}
+			}
 			escaped, _ := verifdrv.Catch(func() { h.ServeHTTP(rec, req) })
 			esc := int64(0)
 			if escaped {
